@@ -52,6 +52,9 @@ template <class T> class FixedArray {
     const T &get(size_t i) const { return _ptr[i * _stride]; }
     T &unchecked_index(size_t i) { return _ptr[i * _stride]; }
     size_t match_dimension(const FixedArray &o) const { if (len() != o.len()) throw std::invalid_argument("dimensions"); return len(); }
+    // alias_bad: the shallow copy of a const operand is written through; alias_good: it is only read
+    FixedArray ifelse_bad(const FixedArray &other) { FixedArray tmp(other); tmp.set_good(0, T()); return tmp; }
+    Py_ssize_t peek_good(const FixedArray &other) { FixedArray tmp(other); return tmp.len(); }
     FixedArray row_view(size_t i) { return FixedArray(&_ptr[i], 1, 1, _writable); }
 
     class WritableGoodAccess { T *_p; public: WritableGoodAccess(FixedArray &a) : _p(a._ptr) { if (!a.writable()) throw std::invalid_argument("read-only"); } };
@@ -117,6 +120,7 @@ struct Tab { int n = 0; void insert(int) { ++n; } void erase(int) { --n; } Ent *
 template <class T> class StringTableT { Tab _table; public:
     int intern(const T &s) { const Tab &strings = _table; Ent *it = strings.find(0); if (it == strings.end()) { _table.insert(0); return 0; } return it->i; }
     void forget_bad(const T &) { _table.erase(0); } };
+inline Py_ssize_t use_alias(FixedArray<int> &a, const FixedArray<int> &b) { FixedArray<int> c = a.ifelse_bad(b); return a.peek_good(b) + c.len(); }
 inline int use_table() { StringTableT<int> t; t.forget_bad(1); return t.intern(2); }
 // R19.own: a view shares the storage it refers to together with the handle that keeps that storage alive
 struct AnyH { int *h = nullptr; AnyH() {} AnyH(const AnyH &o) : h(o.h) {} };
@@ -145,9 +149,12 @@ struct ScratchTask : Task { Arr2 r; Arr2 a;
     void execute(size_t start, size_t end) override { int last = 0; for (size_t i = start; i < end; ++i) { if (a[i] > 0) last = a[i]; r[i] = last; } } };
 struct ScratchOkTask : Task { Arr2 r; Arr2 a;
     void execute(size_t start, size_t end) override { int tmp = 0; for (size_t i = start; i < end; ++i) { if (a[i] > 0) tmp = a[i]; else tmp = -a[i]; r[i] = tmp; } } };
+// shared_bad: state with static storage duration written from execute()
+struct StaticStateTask : Task { Arr2 r;
+    void execute(size_t start, size_t end) override { static int calls = 0; for (size_t i = start; i < end; ++i) { r[i] = calls; } calls = calls + 1; } };
 struct PythonTask : Task { Arr2 r;
     void execute(size_t start, size_t end) override { for (size_t i = start; i < end; ++i) { r[i] = 0; } PyErr_SetString(nullptr, "x"); } };
 inline void run_good(FixedArray<int> &r, const FixedArray<int> &a) { size_t len = r.match_dimension(a); GoodTask t(r, a); dispatchTask(t, len); }
 inline void run_bad(FixedArray<int> &r, const FixedArray<int> &a) { size_t len = r.len(); GoodTask t(r, a); dispatchTask(t, len); }
-inline void run_others(FixedArray<int> &r) { IgnoresStartTask t(r); dispatchTask(t, r.len()); NeighbourTask n; DisjointTask d; PythonTask p; ScratchTask s1; ScratchOkTask s2; n.execute(0, 1); d.execute(0, 1); p.execute(0, 1); s1.execute(0, 1); s2.execute(0, 1); }
+inline void run_others(FixedArray<int> &r) { IgnoresStartTask t(r); dispatchTask(t, r.len()); NeighbourTask n; DisjointTask d; PythonTask p; ScratchTask s1; ScratchOkTask s2; StaticStateTask ss; ss.execute(0, 1); n.execute(0, 1); d.execute(0, 1); p.execute(0, 1); s1.execute(0, 1); s2.execute(0, 1); }
 }
